@@ -50,6 +50,8 @@ PEERS = [
     ('c', 'kc', '10.0.0.3', 9003, 55, 0, True, 0),
     # a device whose name extends another's: 'b' + 'kx' and 'bk' + 'x' read the same once joined without a separator
     ('bk', 'x', '10.0.0.4', 9004, 13, 14, False, 1),
+    # a device named outside ASCII: header fields of more bytes than characters (padding counts characters, the cipher bytes)
+    ('z\u00fc', 'k\u00df\u20ac', '10.0.0.5', 9005, 33, 34, False, 0),
 ]
 
 
@@ -406,6 +408,9 @@ def valid_plaintexts():
     out.append(('sync_runs', 'c kc 0 1 ' + js, 'c', 0, 1, js))
     js = payload_json(2, 3)
     out.append(('resync_runs', 'b kb 2 1 ' + js, 'b', 2, 1, js))
+    out.append(('ping_utf8', 'z\u00fc k\u00df\u20ac 1 0 {}', 'z\u00fc', 1, 0, '{}'))
+    js = payload_json(1, 2, 7)
+    out.append(('sync_utf8', 'z\u00fc k\u00df\u20ac 0 0 ' + js, 'z\u00fc', 0, 0, js))
     return out
 
 
@@ -429,7 +434,7 @@ def deliver_case(kind, recv_bytes, msg, m, cuts, rng, addr=None):
     name, pt, urn, ty, fl, js = msg
     script = cut(m, cuts)
     n = expected_reads(script, recv_bytes)
-    addr = addr or {'b': '10.0.0.2', 'c': '10.0.0.3'}[urn]
+    addr = addr or {'b': '10.0.0.2', 'c': '10.0.0.3', 'z\u00fc': '10.0.0.5'}[urn]
     conn = mk_conn(script, calm_clock(rng, n + 1), addr,
                    expect={'kind': 'deliver', 'urn': urn, 'type': ty, 'flags': fl, 'json': js, 'reads': n, 'len': len(m), 'cuts': list(cuts)})
     return {'kind': kind, 'recv_bytes': recv_bytes, 'queue_cap': 0, 'msg': name, 'len': len(m), 'cuts': list(cuts),
